@@ -18,9 +18,15 @@ __version__ = '$Id$'
 # a complete list of css3 macros
 MACROS = {
     'nonascii': r'[^\0-\177]',
-    'unicode': r'\\[0-9A-Fa-f]{1,6}(?:{nl}|{s})?',
+    # One way only to read an escape (as the longest match semantics of the
+    # CSS grammar has it): as many hex digits as there are (up to 6: after each
+    # digit either another one or something that is not a hex digit), then the
+    # one white space if there is one. Otherwise the digits and the space
+    # could also be taken for ordinary characters of a string or URL and a
+    # match which fails in the end would be retried in exponentially many ways.
+    'unicode': r'\\[0-9A-Fa-f](?:[0-9A-Fa-f](?:[0-9A-Fa-f](?:[0-9A-Fa-f](?:[0-9A-Fa-f](?:[0-9A-Fa-f]|(?![0-9A-Fa-f]))|(?![0-9A-Fa-f]))|(?![0-9A-Fa-f]))|(?![0-9A-Fa-f]))|(?![0-9A-Fa-f]))(?:\r\n|[ \t\r\n\f]|(?![ \t\r\n\f]))',
     # 'escape': r'{unicode}|\\[ -~\200-\777]',
-    'escape': r'{unicode}|\\[^\n\r\f0-9a-f]',
+    'escape': r'{unicode}|\\[^\n\r\f0-9a-fA-F]',
     'nmstart': r'[_a-zA-Z]|{nonascii}|{escape}',
     'nmchar': r'[-_a-zA-Z0-9]|{nonascii}|{escape}',
     'string1': r'"([^\n\r\f\\"]|\\{nl}|{escape})*"',
